@@ -99,6 +99,7 @@ var items = []item{
 	{"transport/ardop", "polynomial", "ardop_polynomial", "N"},
 	{"transport/ardop", "parseCtrlMsg", "ardop_ctrl_cases", "switchcases"},
 	{"transport/ardop", "stateMap", "ardop_state_map", "strmap"},
+	{"transport/ax25/agwpe", "header", "agw_header_layout", "structlayout"},
 }
 
 type stubImporter struct{ fallback types.Importer }
@@ -324,6 +325,53 @@ func main() {
 				clauses = append(clauses, "["+strings.Join(names, ";\n     ")+"]")
 			}
 			fmt.Fprintf(&b, "Definition %s : list (list (list N)) :=\n  [%s].\n", it.coq, strings.Join(clauses, ";\n   "))
+		case "structlayout":
+			// offset and size (encoding/binary, no padding) of every named field of a struct of
+			// fixed-size fields, and the total size
+			obj := pi.pkg.Scope().Lookup(it.goName)
+			if obj == nil {
+				errs = append(errs, it.pkgDir+": type "+it.goName+" not found")
+				continue
+			}
+			st, ok := obj.Type().Underlying().(*types.Struct)
+			if !ok {
+				errs = append(errs, it.pkgDir+": "+it.goName+" is not a struct")
+				continue
+			}
+			var binSize func(t types.Type) int64
+			binSize = func(t types.Type) int64 {
+				switch u := t.Underlying().(type) {
+				case *types.Basic:
+					switch u.Kind() {
+					case types.Uint8, types.Int8, types.Bool:
+						return 1
+					case types.Uint16, types.Int16:
+						return 2
+					case types.Uint32, types.Int32, types.Float32:
+						return 4
+					case types.Uint64, types.Int64, types.Float64:
+						return 8
+					}
+				case *types.Array:
+					return u.Len() * binSize(u.Elem())
+				}
+				return -1 << 40
+			}
+			var ents []string
+			off := int64(0)
+			for i := 0; i < st.NumFields(); i++ {
+				f := st.Field(i)
+				sz := binSize(f.Type())
+				if f.Name() != "_" {
+					ents = append(ents, fmt.Sprintf("(%s, (%d, %d))", strBytes(f.Name()), off, sz))
+				}
+				off += sz
+			}
+			if off < 0 {
+				errs = append(errs, it.pkgDir+": "+it.goName+": field of unsupported type")
+				continue
+			}
+			fmt.Fprintf(&b, "Definition %s : list (list N * (N * N)) :=\n  [%s].\nDefinition %s_size : N := %d.\n", it.coq, strings.Join(ents, ";\n   "), it.coq, off)
 		case "strmap":
 			e, ok := pi.vars[it.goName]
 			cl, ok2 := e.(*ast.CompositeLit)
